@@ -126,7 +126,8 @@ def build_layer(d, roots):
         for name, desc in d.get('params', {}).items():
             items.append((name, make_field(desc, wrap_impure=name in d.get('impure', ()), wrap_byvalue=name in d.get('byvalue', ()))))
         for name, desc in d['fields'].items():
-            items.append((name, make_field(desc, name in d.get('optional', ()), name in d.get('impure', ()), name in d.get('byvalue', ()))))
+            items.append((name, make_field(desc, name in d.get('optional', ()), name in d.get('impure', ()), name in d.get('byvalue', ()),
+                                           name in d.get('meta', ()))))
         inh = d.get('inherit', [])
         if isinstance(inh, dict):
             return TransformBase(items, exclude=tuple(inh['exclude']))
